@@ -706,6 +706,34 @@ func (a *Authenticator) handleSessionResumption(ctx context.Context, sessionID s
 
 	slog.Info(fmt.Sprintf("🔐 SERVER: Found session %s, resuming...", redactSessionID(sessionID)), "destination", "cedar")
 
+	// A resumed session stands in for an authentication only if it was an
+	// authenticated one. When this server's policy for the resumed command (the
+	// per-command configuration when one is supplied, as in the full handshake)
+	// requires authentication and the cached session never authenticated, refuse
+	// it before the lease is renewed or any reply is sent: the client then sees
+	// the resumption fail, drops the session and re-authenticates in full.
+	policy := a.config
+	if a.ServerConfigForCommand != nil {
+		policyCommand := command
+		if c, ok := clientAd.EvaluateAttrInt("Command"); ok {
+			policyCommand = int(c)
+		}
+		if perCmd := a.ServerConfigForCommand(policyCommand); perCmd != nil {
+			policy = perCmd
+		}
+	}
+	if policy.Authentication == SecurityRequired {
+		sessionAuthenticated := false
+		if entry.Policy() != nil {
+			if authed, ok := entry.Policy().EvaluateAttrBool("Authenticated"); ok {
+				sessionAuthenticated = authed
+			}
+		}
+		if !sessionAuthenticated {
+			return nil, fmt.Errorf("session %s was established without authentication but authentication is required", redactSessionID(sessionID))
+		}
+	}
+
 	// Renew the session lease
 	entry.RenewLease()
 	cache.Store(entry)
@@ -1380,6 +1408,9 @@ func (a *Authenticator) storeClientSession(negotiation *SecurityNegotiation, dur
 	}
 	_ = policy.Set("AuthMethods", string(negotiation.NegotiatedAuth))
 	_ = policy.Set("CryptoMethods", string(negotiation.NegotiatedCrypto))
+	// Record whether an authentication actually ran (as storeSession does on the
+	// server), so a resumed session can tell whether it stands in for one.
+	_ = policy.Set("Authenticated", negotiation.Authentication)
 	// Store User information for session resumption
 	if negotiation.User != "" {
 		_ = policy.Set("User", negotiation.User)
@@ -1448,6 +1479,21 @@ func (a *Authenticator) resumeSession(ctx context.Context, entry *SessionEntry, 
 	fail := func(reason string, err error) (*SecurityNegotiation, error) {
 		cache.Invalidate(entry.ID())
 		return nil, &SessionResumptionError{SessionID: entry.ID(), Reason: reason, Cause: err}
+	}
+
+	// A resumed session stands in for an authentication only if it was an
+	// authenticated one. When this client's policy requires authentication and
+	// the cached session never authenticated (or does not say), do not ride it:
+	// drop it before anything is sent, so the caller reconnects and performs a
+	// full handshake under the current policy.
+	sessionAuthenticated := false
+	if entry.Policy() != nil {
+		if authed, ok := entry.Policy().EvaluateAttrBool("Authenticated"); ok {
+			sessionAuthenticated = authed
+		}
+	}
+	if a.config.Authentication == SecurityRequired && !sessionAuthenticated {
+		return fail("cached session was established without authentication but the client's policy requires it", nil)
 	}
 
 	if err := msg.PutInt(ctx, commands.DC_AUTHENTICATE); err != nil {
@@ -1536,6 +1582,8 @@ func (a *Authenticator) resumeSession(ctx context.Context, entry *SessionEntry, 
 		if user, ok := entry.Policy().EvaluateAttrString("User"); ok {
 			negotiation.User = user
 		}
+		// Restore the session's actual authentication outcome (see storeClientSession)
+		negotiation.Authentication = sessionAuthenticated
 		// Restore the peer (server) version so version-dependent logic works on
 		// a resumed session (see storeClientSession).
 		if rv, ok := entry.Policy().EvaluateAttrString("RemoteVersion"); ok {
